@@ -773,6 +773,28 @@ class Evaluator:
                     lst.insert(i, v)
                     self.env[f.value.id] = tuple(lst)
                     return None
+                if isinstance(f, ast.Attribute) and f.attr == "update" and len(st.value.args) == 1 and not st.value.keywords:
+                    try:
+                        tgt_d = self.ev(f.value)
+                    except Unsupported:
+                        tgt_d = None
+                    if isinstance(tgt_d, dict):
+                        src_d = self.ev(st.value.args[0])
+                        if not isinstance(src_d, dict):
+                            raise Unsupported(st, "dict.update with a non-dict model value")
+                        tgt_d.update(src_d)  # model dictionaries are mutable and shared, like the real ones
+                        return None
+                if isinstance(f, ast.Attribute) and f.attr in ("append", "extend") and isinstance(f.value, ast.Subscript) and len(st.value.args) == 1 and not st.value.keywords:
+                    try:
+                        holder_d = self.ev(f.value.value)
+                    except Unsupported:
+                        holder_d = None
+                    if isinstance(holder_d, dict):
+                        k_ = self.ev(f.value.slice)
+                        if isinstance(holder_d.get(k_), tuple):
+                            v = self.ev(st.value.args[0])
+                            holder_d[k_] = holder_d[k_] + ((v,) if f.attr == "append" else tuple(v))
+                            return None
                 if self.call_hook is not None and self.call_hook(st.value, self):
                     return None
                 if getattr(self, "call_value", None) is not None and self.call_value(st.value, self) is not NOT_MODELLED:
@@ -819,8 +841,35 @@ class Evaluator:
                         for s3 in st.finalbody:
                             self.step(s3)
                         return o
-            except ModelRaise:
-                raise Unsupported(st, "a modelled callee raised inside a try with recovery handlers")
+            except ModelRaise as mr:
+                # a leaf raised a NAMED builtin exception (int() -> ValueError, struct.error, ...): the first handler whose class covers it
+                # recovers, exactly as the interpreter would select it; an unnamed model raise stays outside the fragment
+                import builtins as _b
+                exc_name = getattr(mr.outcome, "value", None)
+                exc_cls = getattr(_b, exc_name, None) if isinstance(exc_name, str) else None
+                if not (isinstance(exc_cls, type) and issubclass(exc_cls, BaseException)):
+                    raise Unsupported(st, "a modelled callee raised inside a try with recovery handlers")
+                chosen = None
+                for h in st.handlers:
+                    names = [] if h.type is None else [ast.unparse(x) for x in (h.type.elts if isinstance(h.type, ast.Tuple) else [h.type])]
+                    hcls = [getattr(_b, n_, None) for n_ in names]
+                    if h.type is None or any(isinstance(k_, type) and issubclass(exc_cls, k_) for k_ in hcls):
+                        chosen = h
+                        break
+                    if any(k_ is None for k_ in hcls):
+                        raise Unsupported(st, "a handler for a non-builtin exception class next to a modelled builtin raise")
+                if chosen is None:
+                    for s3 in st.finalbody:
+                        self.step(s3)
+                    raise
+                if chosen.name:
+                    self.env[chosen.name] = Obj(_exc=exc_name)
+                for s2 in chosen.body:
+                    o = self.step(s2)
+                    if o is not None:
+                        for s3 in st.finalbody:
+                            self.step(s3)
+                        return o
             for s3 in st.finalbody:
                 o = self.step(s3)
                 if o is not None:
